@@ -33,7 +33,7 @@ void **PtrVec_emplace_back(struct PtrVec *v, void *x) {
   __CPROVER_assume(g_psz < (1UL << 40)); g_psz++;
   return &g_fval;
 }
-void PtrVec_push_back(struct PtrVec *v, void **x) { if (g_psz == g_f) g_fval = *x; __CPROVER_assume(g_psz < (1UL << 40)); g_psz++; }
+void PtrVec_push_back(struct PtrVec *v, void *x) { if (g_psz == g_f) g_fval = x; __CPROVER_assume(g_psz < (1UL << 40)); g_psz++; }
 void **PtrVec_data(struct PtrVec *v) { return g_pdata; }
 size_t PtrVec_size(struct PtrVec *v) { return g_psz; }
 void PtrVec_clear(struct PtrVec *v) { g_psz = 0; }
@@ -53,10 +53,26 @@ void PageAllocator_deallocate__voidPP_u64(struct PageAllocator *self, void **pag
   __CPROVER_assume(g_dcalls < 1000); g_dcalls++; g_dn = num; g_dfval = g_fval; g_dptr = pages;
 }
 
+/* ---- discard / destination / pop lambda */
+typedef struct AsyncFileAppender App_t;
+typedef struct AsyncFileAppender_Destination Dest_t;
+typedef struct AsyncFileAppender_Item Item_t;
+typedef struct ConcurrentBoundedQueue_L_AsyncFileAppender_Item_SchedInterface_R_Iterator QIt_t;
+typedef struct lambda_async_file_appender_keep_writing_1 PopL_t;
+#define LPOP AsyncFileAppender_keep_writing_lambda_async_file_appender_keep_writing_1_op_call
+size_t g_ps;                                  /* the allocator's page size */
+unsigned g_appends; struct LogEntry *g_app_entry; struct IovVec *g_app_vec; size_t g_app_ps;
+size_t g_dsz, g_fidx; Dest_t *g_dests; struct FileObject *g_file; unsigned g_set_index_calls; size_t g_set_index_val; unsigned g_dest_emplaced, g_vec_ctor, g_vec_dtor;
+size_t g_qn, g_stop_at, g_appended; Item_t *g_items; Dest_t *g_cur_dest; size_t g_cur_idx; unsigned g_dest_calls; _Bool g_order_ok, g_dest_ok, g_ps_ok;
 static void vf_havoc_ghosts(void) {
+  g_ps = nondet_u64(); g_appends = 0; g_app_entry = 0; g_app_vec = 0; g_app_ps = 0;
+  g_dsz = nondet_u64(); __CPROVER_assume(g_dsz < (1UL << 20)); g_dests = malloc((g_dsz + 2) * sizeof(Dest_t)); __CPROVER_assume(g_dests != 0);
+  g_fidx = nondet_u64(); g_file = 0; g_set_index_calls = 0; g_set_index_val = 0; g_dest_emplaced = g_vec_ctor = g_vec_dtor = 0;
+  g_qn = nondet_u64(); __CPROVER_assume(g_qn < (1UL << 20)); g_items = malloc((g_qn + 1) * sizeof(Item_t)); __CPROVER_assume(g_items != 0);
+  g_stop_at = nondet_u64(); g_appended = 0; g_cur_dest = 0; g_dest_calls = 0; g_order_ok = 1; g_dest_ok = 1; g_ps_ok = 1;
   g_in = nondet_u64(); __CPROVER_assume(g_in < (1UL << 32));
   g_iov = malloc((g_in + 1) * sizeof(struct iovec)); __CPROVER_assume(g_iov != 0);
-  g_isz = g_in; g_psz = 0; g_f = nondet_u64(); g_fval = 0; g_pdata = malloc(8); __CPROVER_assume(g_pdata != 0);
+  g_isz = nondet_u64(); g_psz = 0; g_f = nondet_u64(); g_fval = 0; g_pdata = malloc(8); __CPROVER_assume(g_pdata != 0);
   g_wr = 0; g_fd = nondet_int(); g_bad_fd = 0; g_dcalls = 0; g_dn = nondet_u64(); g_dfval = 0; g_dptr = 0;
 }
 
@@ -70,18 +86,115 @@ __CPROVER_ensures(g_dcalls == 1 && g_dn == g_in && g_dptr == g_pdata)  /* one de
 __CPROVER_ensures(g_f < g_in ==> g_dfval == g_iov[g_f].iov_base)       /* and page k of that call is the base of element k, for every k */
 __CPROVER_ensures(g_isz == 0 && g_psz == 0)
 ;
+size_t PageAllocator_page_size(struct PageAllocator *a) { return g_ps; }
+/* LogEntry::append_to_iovec (the reader: C20.reader / pages_append): appends the entry's scatter list to the given vector */
+void LogEntry_append_to_iovec(struct LogEntry *e, unsigned long page_size, struct IovVec *v) {
+#ifdef VF_POP_LAMBDA
+  /* pop lambda: item k of the batch must be appended k-th (each once, in pop order), with the allocator's page size, to the list of
+     the destination that destination() returned for this very item's file */
+  if (e != &g_items[g_appended].entry) g_order_ok = 0;
+  if (g_cur_dest == 0 || v != &g_cur_dest->iov || g_cur_dest->file != g_items[g_appended].file) g_dest_ok = 0;
+  if (page_size != g_ps) g_ps_ok = 0;
+  g_cur_dest = 0;
+  __CPROVER_assume(g_appended < (1UL << 30)); g_appended++;
+#else
+  __CPROVER_assume(g_appends < 1000); g_appends++; g_app_entry = e; g_app_vec = v; g_app_ps = page_size;
+  g_isz = g_in;          /* the list (empty before) now holds the entry's g_in scatter elements */
+#endif
+}
 #define IOV_AT(p) (__CPROVER_same_object(p, g_iov) && __CPROVER_POINTER_OFFSET(p) % sizeof(struct iovec) == 0 && __CPROVER_POINTER_OFFSET(p) / sizeof(struct iovec) == g_wr)
 //@loop AsyncFileAppender_write_use_plain_writev 1
-//@  VF_REBASE(iter, g_iov)
-//@  __CPROVER_assigns(iter, g_psz, g_fval, g_wr, g_bad_fd)
-//@  __CPROVER_loop_invariant(g_isz == g_in && g_wr <= g_in && g_psz == g_wr && g_bad_fd == 0 && IOV_AT(iter))
+//@  VF_REBASE(@l3:iter@, g_iov)
+//@  __CPROVER_assigns(@l3:iter@, g_psz, g_fval, g_wr, g_bad_fd)
+//@  __CPROVER_loop_invariant(g_isz == g_in && g_wr <= g_in && g_psz == g_wr && g_bad_fd == 0 && IOV_AT(@l3:iter@))
 //@  __CPROVER_loop_invariant(g_f < g_wr ==> g_fval == g_iov[g_f].iov_base)
 //@  __CPROVER_decreases(g_in - g_wr)
 //@end
 //@loop AsyncFileAppender_write_use_plain_writev 2
-//@  __CPROVER_assigns(i, g_psz, g_fval)
-//@  __CPROVER_loop_invariant(0 <= i && i <= size && g_psz == g_wr + (size_t)i)
-//@  __CPROVER_loop_invariant(g_f < g_wr + (size_t)i ==> g_fval == g_iov[g_f].iov_base)
-//@  __CPROVER_decreases(size - i)
+//@  __CPROVER_assigns(@l6:i@, g_psz, g_fval)
+//@  __CPROVER_loop_invariant(0 <= @l6:i@ && @l6:i@ <= @l5:size@ && g_psz == g_wr + (size_t)@l6:i@)
+//@  __CPROVER_loop_invariant(g_f < g_wr + (size_t)@l6:i@ ==> g_fval == g_iov[g_f].iov_base)
+//@  __CPROVER_decreases(@l5:size@ - @l6:i@)
+//@end
+
+/* discard(entry): the entry's scatter list is built once with the allocator's page size, every element's base is handed back to
+ * the allocator in ONE deallocate call (element k as page k), nothing is written, and both static buffers are empty again */
+void AsyncFileAppender_discard(App_t *self, struct LogEntry *entry)
+__CPROVER_requires(__CPROVER_is_fresh(self, sizeof(*self)) && __CPROVER_is_fresh(entry, sizeof(*entry)) && __CPROVER_is_fresh(self->_page_allocator, 8))
+__CPROVER_requires(g_isz == 0 && g_psz == 0 && g_in < (1UL << 32) && g_wr == 0 && g_dcalls == 0 && g_appends == 0)   /* static buffers empty between calls (ensures below) */
+__CPROVER_assigns(g_isz, g_psz, g_fval, g_dcalls, g_dn, g_dfval, g_dptr, g_appends, g_app_entry, g_app_vec, g_app_ps)
+__CPROVER_ensures(g_appends == 1 && g_app_entry == entry && g_app_ps == g_ps && g_app_vec == &AsyncFileAppender_discard__static_iov)
+__CPROVER_ensures(g_dcalls == 1 && g_dn == g_in && g_dptr == g_pdata && (g_f < g_in ==> g_dfval == g_iov[g_f].iov_base))
+__CPROVER_ensures(g_isz == 0 && g_psz == 0 && g_wr == 0)
+;
+//@loop AsyncFileAppender_discard 1
+//@  VF_REBASE(__begin1, g_iov)
+//@  __CPROVER_assigns(__begin1, g_psz, g_fval)
+//@  __CPROVER_loop_invariant(g_isz == g_in && g_psz <= g_in && __CPROVER_same_object(__begin1, g_iov) && __CPROVER_POINTER_OFFSET(__begin1) % sizeof(struct iovec) == 0 && __CPROVER_POINTER_OFFSET(__begin1) / sizeof(struct iovec) == g_psz)
+//@  __CPROVER_loop_invariant(__CPROVER_same_object(__end1, g_iov) && __CPROVER_POINTER_OFFSET(__end1) == g_in * sizeof(struct iovec))
+//@  __CPROVER_loop_invariant(g_f < g_psz ==> g_fval == g_iov[g_f].iov_base)
+//@  __CPROVER_decreases(g_in - g_psz)
+//@end
+
+/* destination(file): the per-file list.  A file that is registered (index() != SIZE_MAX) gets the entry at its index -- the
+ * registry invariant "dests[file->index()].file == file" is what the registration branch establishes: a new file is given the
+ * index of the entry appended for it, that entry names the file and starts with an empty list */
+size_t FileObject_index(struct FileObject *f) { __CPROVER_assert(f == g_file, "C20 appender: index of the file being looked up"); return g_fidx; }
+void FileObject_set_index(struct FileObject *f, unsigned long i) { __CPROVER_assert(f == g_file, "C20 appender: only the looked-up file is (re)indexed"); g_set_index_calls++; g_set_index_val = i; }
+unsigned long std_vector_L_AsyncFileAppender_Destination_R_size(struct std_vector_L_AsyncFileAppender_Destination_R *v) { return g_dsz; }
+Dest_t *std_vector_L_AsyncFileAppender_Destination_R_op_index(struct std_vector_L_AsyncFileAppender_Destination_R *v, unsigned long i) {
+  __CPROVER_assert(i < g_dsz, "K4 C20 appender: destination index inside the registry");
+  __CPROVER_assume(g_dests[i].file == g_file);        /* registry invariant for the file whose index this is */
+  return &g_dests[i];
+}
+Dest_t *std_vector_L_AsyncFileAppender_Destination_R_emplace_back(struct std_vector_L_AsyncFileAppender_Destination_R *v, Dest_t *d) {
+  g_dests[g_dsz].file = d->file; g_dest_emplaced++; g_dsz++; return &g_dests[g_dsz - 1];
+}
+Dest_t *std_vector_L_AsyncFileAppender_Destination_R_back(struct std_vector_L_AsyncFileAppender_Destination_R *v) { __CPROVER_assert(g_dsz >= 1, "K4 C20 appender: back() of a non-empty registry"); return &g_dests[g_dsz - 1]; }
+void IovVec_ctor_0(struct IovVec *v) { g_vec_ctor++; }
+void IovVec_dtor(struct IovVec *v) { g_vec_dtor++; }
+Dest_t *AsyncFileAppender_destination(App_t *self, struct FileObject *file)
+#ifdef VF_ENFORCE_AsyncFileAppender_destination
+__CPROVER_requires(__CPROVER_is_fresh(self, sizeof(*self)) && file == g_file && (g_fidx == (size_t)-1 || g_fidx < g_dsz) && g_dsz < (1UL << 20) && g_set_index_calls == 0 && g_dest_emplaced == 0)
+__CPROVER_assigns(g_dsz, g_set_index_calls, g_set_index_val, g_dest_emplaced, g_vec_ctor, g_vec_dtor, __CPROVER_object_whole(g_dests))
+__CPROVER_ensures(__CPROVER_return_value->file == file)
+__CPROVER_ensures(g_fidx != (size_t)-1 ==> (__CPROVER_return_value == &g_dests[g_fidx] && g_dsz == __CPROVER_old(g_dsz) && g_set_index_calls == 0 && g_dest_emplaced == 0))
+__CPROVER_ensures(g_fidx == (size_t)-1 ==> (__CPROVER_return_value == &g_dests[__CPROVER_old(g_dsz)] && g_dsz == __CPROVER_old(g_dsz) + 1 && g_set_index_calls == 1
+                  && g_set_index_val == __CPROVER_old(g_dsz) && g_dest_emplaced == 1))
+#else
+/* as used by the pop lambda: some entry of the registry that names the file */
+__CPROVER_requires(file == g_items[g_appended].file)
+__CPROVER_assigns(g_cur_dest, g_cur_idx, g_dest_calls, __CPROVER_object_whole(g_dests))
+__CPROVER_ensures(g_cur_idx <= g_dsz && __CPROVER_pointer_equals(g_cur_dest, &g_dests[g_cur_idx]) && __CPROVER_pointer_equals(__CPROVER_return_value, &g_dests[g_cur_idx])
+                  && g_dests[g_cur_idx].file == file && g_dest_calls == __CPROVER_old(g_dest_calls) + 1)
+#endif
+;
+
+/* the pop lambda: walks the batch [iter, end) the queue hands it.  Every item before the stop marker (entry.size == 0) is appended
+ * exactly once, in pop order, to the destination of ITS file with the allocator's page size; the stop marker sets `stop` and ends
+ * the walk; nothing after it is touched.  (Queue iterators are ghost positions; the queue's side is C01.) */
+#define QPOS(it) ((size_t)(it)._slot)
+_Bool ConcurrentBoundedQueue_L_AsyncFileAppender_Item_SchedInterface_R_Iterator_op_lt(QIt_t *a, QIt_t b) { return QPOS(*a) < QPOS(b); }
+void ConcurrentBoundedQueue_L_AsyncFileAppender_Item_SchedInterface_R_Iterator_ctor__IteratorR(QIt_t *a, QIt_t *b) { *a = *b; }
+QIt_t ConcurrentBoundedQueue_L_AsyncFileAppender_Item_SchedInterface_R_Iterator_op_inc__i32(QIt_t *a, int x) { QIt_t o = *a; a->_slot = (void *)(QPOS(*a) + 1); return o; }
+Item_t *ConcurrentBoundedQueue_L_AsyncFileAppender_Item_SchedInterface_R_Iterator_op_star(QIt_t *a) {
+  __CPROVER_assert(QPOS(*a) < g_qn, "K4 C20 appender: only items of the batch are read");
+  size_t k = QPOS(*a);
+  __CPROVER_assume((g_items[k].entry.size == 0) == (k == g_stop_at));      /* where the stop marker sits (g_stop_at >= g_qn: not in this batch) */
+  return &g_items[k];
+}
+void LPOP(PopL_t *c, QIt_t iter, QIt_t end)
+__CPROVER_requires(__CPROVER_is_fresh(c, sizeof(*c)) && __CPROVER_is_fresh(c->cap_stop, sizeof(_Bool)) && __CPROVER_is_fresh(c->cap_this, sizeof(App_t)) && __CPROVER_is_fresh(c->cap_this->_page_allocator, 8))
+__CPROVER_requires(QPOS(iter) == 0 && QPOS(end) == g_qn && g_appended == 0 && g_order_ok && g_dest_ok && g_ps_ok && g_dest_calls == 0 && g_cur_dest == 0)
+__CPROVER_assigns(*c->cap_stop, g_appended, g_order_ok, g_dest_ok, g_ps_ok, g_cur_dest, g_cur_idx, g_dest_calls, __CPROVER_object_whole(g_dests), __CPROVER_object_whole(g_items))
+__CPROVER_ensures(g_order_ok && g_dest_ok && g_ps_ok)
+__CPROVER_ensures(g_stop_at < g_qn ? (g_appended == g_stop_at && *c->cap_stop) : (g_appended == g_qn && *c->cap_stop == __CPROVER_old(*c->cap_stop)))
+__CPROVER_ensures(g_dest_calls == g_appended)
+;
+//@loop AsyncFileAppender_keep_writing_lambda_async_file_appender_keep_writing_1_op_call 1
+//@  __CPROVER_assigns(@p1:iter@, g_appended, g_order_ok, g_dest_ok, g_ps_ok, g_cur_dest, g_cur_idx, g_dest_calls, __CPROVER_object_whole(g_dests), __CPROVER_object_whole(g_items))
+//@  __CPROVER_loop_invariant(QPOS(@p1:iter@) == g_appended && g_appended <= g_qn && g_appended <= g_stop_at && g_order_ok && g_dest_ok && g_ps_ok && g_dest_calls == g_appended && g_cur_dest == 0 && QPOS(@p2:end@) == g_qn)
+//@  __CPROVER_loop_invariant(*self->cap_stop == __CPROVER_loop_entry(*self->cap_stop))
+//@  __CPROVER_decreases(g_qn - g_appended)
 //@end
 #endif
